@@ -143,7 +143,7 @@ func specFwClockAt(i int) time.Time { return specFwClockAt(i) }
 //@   requires packet != nil && packet.L3 != nil && packet.L3.Interest != nil && packet.L3.Data == nil
 //@   assume t.pitCS != nil && t.deadNonceList != nil && t.deadNonceList.list != nil && t.strategies != nil && table.FibStrategyTable != nil
 //@   assume forall(func(k uint64) bool { return t.strategies[k] != nil })
-//@   modifies verifSends, verifLastFace, verifLastToken, verifSentSet[*], all(table.nameTreePitEntry), all(table.pitCsTreeNode), all(table.PitCsTree), t.deadNonceList.expirationQueue.pq, t.NInInterests, *packet.L3.Interest.HopLimitV, packet.L3.Data, packet.L3.Interest, packet.Raw, packet.Name, all(table.DeadNonceList), t.deadNonceList.list[*], all(table.basePitEntry)
+//@   modifies verifSends, verifLastFace, verifLastToken, verifSentSet[*], all(table.nameTreePitEntry), all(table.pitCsTreeNode), all(table.PitCsTree), t.deadNonceList.expirationQueue.pq, all(table.ghostDnlItems), t.NInInterests, *packet.L3.Interest.HopLimitV, packet.L3.Data, packet.L3.Interest, packet.Raw, packet.Name, all(table.DeadNonceList), t.deadNonceList.list[*], all(table.basePitEntry)
 //@   loop 2 invariant fresh(allowedNexthops) && len(allowedNexthops) <= rangeindex+1 && cap(allowedNexthops) == len(nexthops) && forallIn(0, len(nexthops), func(i int) bool { return nexthops[i] != nil })
 //@   ensures [reject-nonlocal-localhost] old(packet.IncomingFaceID != nil && dispatch.GetFace(*packet.IncomingFaceID) != nil && dispatch.GetFace(*packet.IncomingFaceID).Scope() == defn.NonLocal && specIsLocalhost(packet.L3.Interest.NameV)) ==> t.NInInterests == old(t.NInInterests)
 //@   ensures [hop-limit-zero] old(packet.L3.Interest.HopLimitV != nil && *packet.L3.Interest.HopLimitV == 0) ==> verifSends == old(verifSends) && t.NInInterests == old(t.NInInterests)
@@ -153,7 +153,7 @@ func specFwClockAt(i int) time.Time { return specFwClockAt(i) }
 //@   requires packet != nil && packet.L3 != nil && packet.L3.Data != nil && packet.L3.Interest == nil && sameSlice(packet.Name, packet.L3.Data.NameV)
 //@   assume t.pitCS != nil && t.deadNonceList != nil && t.deadNonceList.list != nil && t.strategies != nil && table.FibStrategyTable != nil
 //@   assume forall(func(k uint64) bool { return t.strategies[k] != nil })
-//@   modifies verifSends, verifLastFace, verifLastToken, verifSentSet[*], all(table.nameTreePitEntry), all(table.pitCsTreeNode), all(table.PitCsTree), all(table.basePitEntry), all(table.baseCsEntry), all(table.PitOutRecord), all(table.PitInRecord), t.deadNonceList.expirationQueue.pq, t.deadNonceList.list[*], t.NInData, t.NOutData, t.NSatisfiedInterests, verifCsInserts
+//@   modifies verifSends, verifLastFace, verifLastToken, verifSentSet[*], all(table.nameTreePitEntry), all(table.pitCsTreeNode), all(table.PitCsTree), all(table.basePitEntry), all(table.baseCsEntry), all(table.PitOutRecord), all(table.PitInRecord), t.deadNonceList.expirationQueue.pq, all(table.ghostDnlItems), t.deadNonceList.list[*], t.NInData, t.NOutData, t.NSatisfiedInterests, verifCsInserts
 //@   ensures [reject-nonlocal-localhost] old(packet.IncomingFaceID != nil && dispatch.GetFace(*packet.IncomingFaceID) != nil && dispatch.GetFace(*packet.IncomingFaceID).Scope() == defn.NonLocal && len(packet.Name) > 0 && specIsLocalhost(packet.L3.Data.NameV)) ==> t.NOutData == old(t.NOutData) && t.deadNonceList.list == old(t.deadNonceList.list) && verifCsInserts == old(verifCsInserts) && verifSends == old(verifSends)
 //@   loop 3 invariant [downstreams-are-pending] forall(func(k uint64) bool { return mapHas(downstreams, k) ==> visited(k) })
 
